@@ -216,8 +216,8 @@ ADDED = {
             "; constant-propagating pending-event walk with helper summaries"),
     "C09": (" Also: every node-new notice for a configured board rewrites the stored address the commands use.",
             "; must-write path rule in the connect routine"),
-    "C10": (" Also: the user's write callback is only invoked with the send-buffer mutex held (never by two threads at once).",
-            "; lockset at every callback invocation"),
+    "C10": (" Also: the user's write callback is only invoked with the send-buffer mutex held (never by two threads at once); a value read from a shared field in one critical section and written back modified in a later one (value flow through the caller's locals) is covered by a lock held exclusively across both (no lost update).",
+            "; lockset at every callback invocation, split read-modify-write rule (frame-level value flow x locksets)"),
     "C12": (" Also: every byte is compared with the packet delimiter before it can be stored as payload (a packet cut off after an escape byte cannot swallow the next one).",
             "; delimiter must-pass-through"),
     "C13": (" Also: every file / YAML parser opened while reading the configuration is closed / deleted on every path, with the acquiring helper analysed inlined into its callers.",
@@ -285,7 +285,11 @@ def main():
                               "(lockset dataflow, path rules, provenance, abstract interpretation)"}],
         "checks": checks,
         "not_applicable": na,
-        "notes": "Static analysis only; see DESIGN.md. Exit 0 = all obligations discharged (KNOWN-FINDING lines for listed findings), 1 = VIOLATION, 2 = analysis broken (never a pass).",
+        "notes": ("Static analysis only; see DESIGN.md. Exit 0 = all obligations discharged (KNOWN-FINDING lines for listed findings), 1 = VIOLATION, 2 = analysis broken (never a pass). "
+                  "If the program as written does not satisfy a check, the same rules are re-run on a canonical form in which static helpers that do not exist at the pinned commit "
+                  "(reference_functions.json) are inlined; a violation is reported only if both forms fail (DESIGN.md section 13). The thorough tier additionally re-applies the seeded "
+                  "changes of the property (seeded/) to a scratch copy of the current tree and requires that they are still reported (DESIGN.md section 11.2). "
+                  "Self-test suites: seeded/ (must be reported) and refactors/ (must stay silent), driven by tools/sweep_par.py."),
     }
     with open(os.path.join(VERIF, "MANIFEST.json"), "w") as f:
         json.dump(m, f, indent=1)
